@@ -13,6 +13,19 @@ pub fn run(n: u64, seed: u64) -> Result<String, String> {
     if crc::crc32(b"123456789") != 0xCBF4_3926 {
         return Err("crc32 check value".into());
     }
+    {
+        // forged CRC32: 32 contiguous bits, and 35 scattered integer-payload bits
+        let mut m = *b"\x02\x00\x04\x04\x00\x00\x00\x00\x00\x00\x00";
+        let free: Vec<usize> = (32..64).collect();
+        if !crc::forge_crc32(&mut m, &free, 0xDEAD_BEEF) || crc::crc32(&m) != 0xDEAD_BEEF || m[..4] != *b"\x02\x00\x04\x04" || m[8..] != [0, 0, 0] {
+            return Err("forge_crc32 contiguous".into());
+        }
+        let mut m = [0x80u8; 12];
+        let free: Vec<usize> = (2..7).flat_map(|b| (0..7).map(move |k| b * 8 + k)).collect();
+        if !crc::forge_crc32(&mut m, &free, 0x1234_5678) || crc::crc32(&m) != 0x1234_5678 || m.iter().any(|b| b & 0x80 == 0) {
+            return Err("forge_crc32 scattered".into());
+        }
+    }
     if crc::crc64(b"123456789") != 0x995D_C9BB_DF19_39FA {
         return Err("crc64 check value".into());
     }
